@@ -274,6 +274,12 @@ func childC18(ctx *core.Ctx, raw []byte) {
 			}
 		}
 	}
+	if b.Mode == "flush" && b.Index%2 == 1 {
+		// faulty sinks registered in front of the recorder: the matches flushed at Stop still reach the recorder
+		s.AddSink(func([]map[string]any) { panic("faulty asynchronous sink in front of the recorder") })
+		s.AddSyncSink(func([]map[string]any) { panic("faulty synchronous sink in front of the recorder") })
+		ctx.Count("flush_batches_with_faulty_sinks_in_front", 1)
+	}
 	s.AddSyncSink(mkSink("fast", "sync-recorder"))
 	asyncKind := b.Sink
 	if b.Sink == "panicking" {
@@ -314,7 +320,7 @@ func childC18(ctx *core.Ctx, raw []byte) {
 	case "survival":
 		c18Survival(ctx, &b, s, viol, &delivered, &recorderRows)
 	case "flush":
-		c18Flush(ctx, &b, s, viol, &nDelivered, &stopped)
+		c18Flush(ctx, &b, s, viol, &recorderRows, &stopped)
 	default:
 		var wg sync.WaitGroup
 		isDirect := !s.IsAggregationQuery() && !s.IsCEPQuery()
@@ -570,7 +576,7 @@ func c18Flush(ctx *core.Ctx, b *c18Batch, s *streamsql.Streamsql, viol func(stri
 	if after == before && before == 0 {
 		time.Sleep(300 * time.Millisecond)
 		late := atomic.LoadInt64(nDelivered)
-		viol("lifecycle.cep_flush_not_delivered_before_stop_returns", fmt.Sprintf("25 rows all matching A in PATTERN (A+): nothing was delivered when Stop returned (delivered 300 ms later: %d)", late))
+		viol("lifecycle.cep_flush_not_delivered_before_stop_returns", fmt.Sprintf("25 rows all matching A in PATTERN (A+): nothing had reached the recording sink when Stop returned (300 ms later: %d rows; faulty sinks registered in front of it: %v)", late, b.Index%2 == 1))
 	}
 	ctx.Count("flush_batches", 1)
 	ctx.Count("flush_matches_delivered_at_stop", after)
